@@ -897,19 +897,38 @@ def evaluate__replace(self: XPathFunction, context: ta.ContextType = None) -> st
             msg = f"Regular expression {pattern!r} matches zero-length string"
             raise self.error('FORX0003', msg)
         elif q_flag:
-            # use replacement string as is (but inactivating escapes)
-            replacement = replacement.replace('\\', '\\\\')
-            input_string = input_string.replace('\\', '\\\\')
-            return re_pattern.sub(replacement, input_string).replace('\\\\', '\\')
+            # use replacement string as is
+            return re_pattern.sub(lambda m: replacement, input_string)
 
         elif Patterns.replacement.search(replacement) is None:
             raise self.error('FORX0004', f"Invalid replacement string {replacement!r}")
         else:
-            for g in range(re_pattern.groups, -1, -1):
-                if '$%d' % g in replacement:
-                    replacement = re.sub(r'(?<!\\)\$%d' % g, r'\\g<%d>' % g, replacement)
+            def expand(match: re.Match[str]) -> str:
+                # the replacement string is scanned from left to right: \\ and \$ are the escaped
+                # characters, $N is the longest group number that exists (a single digit that
+                # exceeds the number of groups gives the zero-length string)
+                chunks = []
+                k = 0
+                while k < len(replacement):
+                    char = replacement[k]
+                    k += 1
+                    if char == '\\':
+                        chunks.append(replacement[k])
+                        k += 1
+                    elif char == '$':
+                        number = int(replacement[k])
+                        k += 1
+                        while k < len(replacement) and replacement[k].isdigit() \
+                                and number * 10 + int(replacement[k]) <= re_pattern.groups:
+                            number = number * 10 + int(replacement[k])
+                            k += 1
+                        if number <= re_pattern.groups:
+                            chunks.append(match.group(number) or '')
+                    else:
+                        chunks.append(char)
+                return ''.join(chunks)
 
-            return re_pattern.sub(replacement, input_string).replace('\\$', '$')
+            return re_pattern.sub(expand, input_string)
 
 
 @method(function('tokenize', nargs=(1, 3),
